@@ -69,7 +69,7 @@ def run(ctx):
                                 ("SIM_refs_fast.cfg", "fastsim", 12, 3), ("SIM_refs_ooo.cfg", "ooo", 16, 3)):
         if not ctx.want(part):
             continue
-        sim = ctx.tlc("db", "Refs", cfg, simulate=(n if q else 60 * n), depth=depth + 3, workers=4,
+        sim = ctx.tlc("db", "Refs", cfg, simulate=(n if q else 25 * n), depth=depth + 3, workers=4,
                       constants={"MaxOps": depth}, timeout=(600 if q else 3000))
         ctx.account(sim)
         ctx.log("%s: %d walks" % (cfg, len(sim.emitted)))
